@@ -82,6 +82,12 @@ def grid_case(draw, tier):
             "loader": draw(st.sampled_from(["from_header", "from_stream",
                                             "from_zip", "from_header_bil"])),
             "byteorder": draw(st.sampled_from(["I", "I", "M"])),
+            "stem": draw(st.sampled_from(["tg", "tg", "dem (1)", "flow+acc",
+                                          "rain[2020]", "a.b", "DEM", "dem",
+                                          "what?", "x$y", "{z}", "p|q",
+                                          "a b", "tg.v2", "^top", "50%",
+                                          "a*", "(x", "y]", "back\\slash",
+                                          "d\u00e9m"])),
             "clip": [draw(unit) for _ in range(4)],
             # position of the box corners inside their cells; 0.0 = exactly
             # on the left / lower edge of the cell
@@ -173,8 +179,21 @@ def run(case, tmp):
     check_data(data, g.data, "data setter")
 
     # ---- save / load
-    fbil = tmp / "tg.bil"
-    fhdr = tmp / "tg.hdr"
+    # file names as users write them (spaces, brackets, signs, several dots,
+    # capitals), next to other grids whose names differ by case or by one
+    # character
+    stem = case.get("stem", "tg")
+    fbil = tmp / f"{stem}.bil"
+    fhdr = tmp / f"{stem}.hdr"
+    if stem != "tg":
+        decoy = Grid("decoy", 2, 3, dtype=np.float32, nodata=-1.,
+                     cellsize=7., xllcorner=-1., yllcorner=-2.)
+        decoy.data = np.arange(6, dtype=np.float32).reshape(3, 2) + 50
+        for nm in {stem.upper(), stem.lower(), stem.replace(".", "-"),
+                   "x" + stem, stem + "x"} - {stem}:
+            decoy.save(tmp / f"{nm}.bil")
+        labels.append("file-name:" + ("plain" if stem.isalnum()
+                                      else "with-special-characters"))
     g.save(fbil)
     if case["byteorder"] == "M":
         # what a big-endian producer would have written
